@@ -1,7 +1,7 @@
 """C02 -- every traced ray obeys Snell / reflection on the prescribed surface.
 
 Contracts on the real kernels; clause ids are listed in LEDGER.json."""
-from pyvc.vc import contract
+from pyvc.vc import contract, sharded
 from .common import *  # noqa
 
 PROPERTY = 'C02'
@@ -104,3 +104,150 @@ def _rot_contract(axis):
 
 for _ax in 'xyz':
     _rot_contract(_ax)
+
+
+# ------------------------------------------------------------------------------------------
+# coordinate systems
+# ------------------------------------------------------------------------------------------
+@contract('C02.BaseRays.translate', ['optiland/rays/base.py:BaseRays.translate'], ['C02'], bundle=True)
+def translate(c):
+    p = free_point(c)
+    d = c.unit3('L', 'M', 'N')
+    dv = (c.real('dx'), c.real('dy'), c.real('dz'))
+    rays = mk_rays(c, p, d)
+    rays.translate(*dv)
+    p1, d1 = pos_of(c, rays), dir_of(c, rays)
+    for i, ax in enumerate('xyz'):
+        c.ensure_eq('C02.translate.position', p1[i], p[i] + dv[i])
+        c.ensure_eq('C02.translate.direction_unchanged', d1[i], d[i])
+
+
+def _cs(c, tilt_mask, with_ref=False):
+    """CoordinateSystem with symbolic decentres and symbolic tilts on the axes in tilt_mask"""
+    CoordinateSystem = c.mod('optiland.coordinate_system').CoordinateSystem
+    kw = dict(x=c.real('cx', -2, 2), y=c.real('cy', -2, 2), z=c.real('cz', -5, 20))
+    for ax in 'xyz':
+        kw['r' + ax] = c.real('r' + ax, -0.5, 0.5, nonzero=True) if ax in tilt_mask else 0.0
+    return CoordinateSystem(**kw)
+
+
+def _cs_contract(mask):
+    @contract('C02.CoordinateSystem.roundtrip.' + (mask or 'none'),
+              [CS + ':CoordinateSystem.localize', CS + ':CoordinateSystem.globalize',
+               'optiland/geometries/base.py:BaseGeometry.localize', 'optiland/geometries/base.py:BaseGeometry.globalize'],
+              ['C02', 'C07'], bundle=True)
+    def rt(c):
+        cs = _cs(c, mask)
+        p = free_point(c)
+        d = c.unit3('L', 'M', 'N')
+        rays = mk_rays(c, p, d)
+        cs.localize(rays)
+        pl, dl = pos_of(c, rays), dir_of(c, rays)
+        # isometry: distances to the vertex and direction norm are preserved
+        v = (c.val(cs.x), c.val(cs.y), c.val(cs.z))
+        c.ensure_eq('C02.cs.localize_isometry', norm2(pl), norm2(tuple(p[i] - v[i] for i in range(3))))
+        c.ensure_eq('C02.cs.localize_unit_direction', norm2(dl), 1)
+        cs.globalize(rays)
+        pg, dg = pos_of(c, rays), dir_of(c, rays)
+        for i in range(3):
+            c.ensure_eq('C02.cs.globalize_inverts_localize', pg[i], p[i])
+            c.ensure_eq('C02.cs.globalize_inverts_localize', dg[i], d[i])
+        # and the other way round
+        cs.globalize(rays)
+        cs.localize(rays)
+        pq, dq = pos_of(c, rays), dir_of(c, rays)
+        for i in range(3):
+            c.ensure_eq('C02.cs.localize_inverts_globalize', pq[i], p[i])
+            c.ensure_eq('C02.cs.localize_inverts_globalize', dq[i], d[i])
+    return rt
+
+
+for _m in ('', 'x', 'y', 'z', 'xy', 'xz', 'yz', 'xyz'):
+    _cs_contract(_m)
+
+
+@contract('C02.CoordinateSystem.untilted_is_translation', [CS + ':CoordinateSystem.localize'], ['C02'], bundle=True)
+def cs_plain(c):
+    cs = _cs(c, '')
+    p = free_point(c)
+    d = c.unit3('L', 'M', 'N')
+    rays = mk_rays(c, p, d)
+    cs.localize(rays)
+    pl, dl = pos_of(c, rays), dir_of(c, rays)
+    v = (c.val(cs.x), c.val(cs.y), c.val(cs.z))
+    for i in range(3):
+        c.ensure_eq('C02.cs.localize_translation', pl[i], p[i] - v[i])
+        c.ensure_eq('C02.cs.localize_translation', dl[i], d[i])
+
+
+# ------------------------------------------------------------------------------------------
+# geometries
+# ------------------------------------------------------------------------------------------
+PL = 'optiland/geometries/plane.py'
+ST = 'optiland/geometries/standard.py'
+
+
+@contract('C02.Plane.distance', [PL + ':Plane.distance', PL + ':Plane.surface_normal'], ['C02'], bundle=True, ieee=True)
+def plane_distance(c):
+    geos = c.mod('optiland.geometries')
+    CoordinateSystem = c.mod('optiland.coordinate_system').CoordinateSystem
+    g = geos.Plane(CoordinateSystem())
+    p = free_point(c)
+    d = c.unit3('L', 'M', 'N')
+    rays = mk_rays(c, p, d)
+    before = c.snapshot(rays=rays)
+    t = c.val(g.distance(rays))
+    if c.isfinite(t):
+        c.ensure_eq('C02.plane.distance.on_surface', p[2] + t * d[2], 0)
+        c.ensure('C02.plane.distance.forward', t >= 0)
+    else:
+        # no finite answer only when there is no forward intersection
+        c.ensure('C02.plane.distance.nonfinite_only_without_hit',
+                 c.decide(d[2] == 0) or c.decide(-p[2] / d[2] < 0))
+    c.ensure_frame('C02.plane.distance.pure', before, c.snapshot(rays=rays), [])
+    nx, ny, nz = g.surface_normal(rays)
+    c.ensure('C02.plane.normal', (nx, ny, nz) == (0, 0, 1))
+
+
+@sharded('C02.StandardGeometry.distance', [ST + ':StandardGeometry.distance'], ['C02', 'C06'], bits=4, bundle=True,
+         ieee=True, max_paths=1500, z3_ms=8000)
+def std_distance(c):
+    geos = c.mod('optiland.geometries')
+    CoordinateSystem = c.mod('optiland.coordinate_system').CoordinateSystem
+    R = c.real('R', -50, 50, nonzero=True)
+    k = c.real('k', -3, 2)
+    g = geos.StandardGeometry(CoordinateSystem(), R, k)
+    p = free_point(c)
+    d = c.unit3('L', 'M', 'N')
+    rays = mk_rays(c, p, d)
+    before = c.snapshot(rays=rays)
+    t = c.val(g.distance(rays))
+    # the quadratic whose roots are the intersections of the line with the quadric (spec side;
+    # written without using |D| = 1 so that its coefficients are polynomially the code's)
+    x, y, z = p
+    L, M, N = d
+    a = k * N ** 2 + L ** 2 + M ** 2 + N ** 2
+    b = 2 * k * N * z + 2 * L * x + 2 * M * y - 2 * N * R + 2 * N * z
+    cc = k * z ** 2 - 2 * R * z + x ** 2 + y ** 2 + z ** 2
+    disc = b * b - 4 * a * cc
+    if c.isfinite(t):
+        q = tuple(p[i] + t * d[i] for i in range(3))
+        F = q[0] ** 2 + q[1] ** 2 + (1 + k) * q[2] ** 2 - 2 * R * q[2]
+        c.ensure_eq('C02.std.distance.on_quadric', F, 0)
+        if c.decide(a != 0):
+            c.ensure('C02.std.distance.forward_root_when_quadratic', t >= 0)
+    elif c.decide(N != 0):
+        # liveness direction (not demanded by the statement, kept so that "always nan" is not
+        # vacuously correct): for rays not exactly perpendicular to the axis a non-finite answer is
+        # given only when the line has no forward intersection: no real root, or both roots behind.
+        # (N == 0 exactly: inf * 0 = nan in the root selection can drop a valid root -- reported
+        # in DESIGN.md as an observation; the statement does not forbid losing such a ray.)
+        if c.decide(a != 0):
+            if c.decide(disc >= 0):
+                s = c.sqrt(disc)
+                t1, t2 = (-b + s) / (2 * a), (-b - s) / (2 * a)
+                c.ensure('C02.std.distance.nonfinite_only_without_forward_root',
+                         c.decide(t1 < 0) and c.decide(t2 < 0))
+        else:
+            c.ensure('C02.std.distance.nonfinite_only_without_forward_root', c.decide(b == 0))
+    c.ensure_frame('C02.std.distance.pure', before, c.snapshot(rays=rays), [])
